@@ -110,6 +110,12 @@ def _configs(op, da, db, k_total, salt=""):
             out.append({"op": op.name, "da": da, "db": None, "ka": ka, "sa": R.sysname(SA[(h >> (3 * j + 1)) % len(SA)]),
                         "fa": "m" if op.momentum else "gm"[(h >> j) % 2], "extra": False, "alt": 0, "spa": "generic",
                         "scal": "py", "dtype_a": "i64", "ints": True})
+        if da == 4:
+            # int64 spatial columns next to a float64, fractional temporal column
+            for j, ka in enumerate(("np1", "np2")):
+                out.append({"op": op.name, "da": da, "db": None, "ka": ka, "sa": R.sysname(SA[(h >> (2 * j + 2)) % len(SA)]),
+                            "fa": "m" if op.momentum else "gm"[(h >> j) % 2], "extra": False, "alt": 0, "spa": "generic",
+                            "scal": "py", "dtype_a": "i64s", "ints": True})
     if db and "axis" not in op.tags:
         # always present: a single object broadcast against an Awkward array whose columns are int64 (coordinates of the
         # object that pass through unchanged must keep their own values), and the same pairing the other way round
@@ -196,6 +202,14 @@ def cells(tier):
                     cfg["opcall"] = opcall
                     cfg["id"] = f"operator {opcall}|{da}|{db or ''}|{k}"
                     out.append(cfg)
+            if base == "scale":
+                # a fractional factor (a Python float or an array of floats) with an operand whose stored columns are int64
+                SA = R.SYSTEMS[da]
+                hh = zlib.crc32(f"{opcall}{da}i64".encode())
+                for j, (ka, scal) in enumerate((("np1", "arr"), ("np2", "arr"), ("np1", "py"), ("flat", "arr"))):
+                    out.append({"op": base, "da": da, "db": None, "ka": ka, "sa": R.sysname(SA[(hh >> (3 * j)) % len(SA)]), "fa": "gm"[(hh >> j) % 2],
+                                "extra": False, "alt": 0, "spa": "generic", "scal": scal, "dtype_a": "i64", "ints": True, "opcall": opcall,
+                                "id": f"operator {opcall}|{da}||i64-{j}"})
     return out
 
 
@@ -256,6 +270,8 @@ def check_case(cell, elems, ctx):
                 if iv is None:
                     ctx.exclude("operand_not_representable")
                     return
+                if cell.get("dtype_" + which) == "i64s" and dd == 4:
+                    iv = tuple(iv[:3]) + (iv[3] + 0.5,)
                 e[which] = dict(e[which], c=iv)
     if cell.get("opcall"):
         kinds = (cell["ka"], cell.get("kb"))
